@@ -110,6 +110,14 @@ class TStr(Ty):
         return VStr(comps[0])
 
 
+class TReal(Ty):
+    def sorts(self):
+        return [z3.RealSort()]
+
+    def wrap(self, comps):
+        return VReal(comps[0])
+
+
 class TBV(Ty):
     def __init__(self, bits):
         self.bits = bits
@@ -271,6 +279,7 @@ class TRec(Ty):
 
 
 INT, BOOL, STR = TInt(), TBool(), TStr()
+REAL = TReal()
 
 
 # ----------------------------------------------------------------------------------------------
@@ -322,6 +331,20 @@ class VStr(V):
 
     def __repr__(self):
         return f"VStr({self.z})"
+
+
+class VReal(V):
+    """Ghost-only real numbers (positions in dense orders)."""
+
+    def __init__(self, z):
+        self.z = z3.RealVal(z) if isinstance(z, (int, float)) else z
+        self.ty = TReal()
+
+    def comps(self):
+        return [self.z]
+
+    def __repr__(self):
+        return f"VReal({self.z})"
 
 
 class VBV(V):
@@ -527,6 +550,8 @@ def _default(sort):
         return z3.IntVal(0)
     if sort == z3.BoolSort():
         return z3.BoolVal(False)
+    if sort == z3.RealSort():
+        return z3.RealVal(0)
     if sort == Ref:
         return NULL
     if sort.kind() == z3.Z3_BV_SORT:
@@ -566,6 +591,8 @@ def coerce(v: V, ty: Ty) -> V:
         return VOpt(False, coerce(v, ty.inner))
     if isinstance(ty, TInt) and isinstance(v, VBool):
         return VInt(z3.If(v.z, 1, 0))
+    if isinstance(ty, TReal) and isinstance(v, VInt):
+        return VReal(z3.ToReal(v.z))
     if isinstance(ty, TSeq) and isinstance(v, VTup):
         return VSeq.of([coerce(i, ty.elem) for i in v.items], ty.elem)
     if isinstance(ty, TSeq) and isinstance(v, VSeq):
@@ -630,6 +657,10 @@ def val_eq(a: V, b: V):
         a = coerce(a, INT)
     if isinstance(b, VBool) and isinstance(a, VInt):
         b = coerce(b, INT)
+    if isinstance(a, VReal) and isinstance(b, (VInt, VBool)):
+        b = coerce(coerce(b, INT), REAL)
+    if isinstance(b, VReal) and isinstance(a, (VInt, VBool)):
+        a = coerce(coerce(a, INT), REAL)
     if isinstance(a, VSeq) and isinstance(b, VTup):
         b = coerce(b, a.ty)
     if isinstance(b, VSeq) and isinstance(a, VTup):
